@@ -65,6 +65,11 @@ CLAIMED["C16"] = dict(
    note="Trusted: Coq kernel (closed under the global context); models of tile_manager.rs and pmtiles.rs; premises as for C10 (hash_inj_on, sizes); serde_json's key-ordered map enters as the canonical metadata bytes; extraction + driver + harness.",
    technique="Coq proof (finish = spec layout; sorted-list uniqueness) + correspondence run + history-pair / cross-process oracle",
    design="7/C16")
+CLAIMED["C11"] = dict(
+   text="Coq theorems C11_partial_open and C11_read_directories: for every byte image, every codec and every range (any combination of inclusive, exclusive and open bounds, empty and inverted ranges, bounds at 0 and at u64::MAX), whenever the full open succeeds on an archive whose leaves respect their pointers (tree_ok: ids found under a pointer are >= the pointer's id - true of every valid archive), the range-filtered open succeeds, reports the same settings and metadata, and every lookup returns exactly what the full open returns inside the range and 'no such tile' outside it; proved by a simulation between the filtered and unfiltered directory walks (skipping a leaf is sound because everything it adds lies beyond the inclusive range end) lifted by induction on the depth fuel. Tie: from_bytes_partially / from_async_reader_partially and read_directories vs the extracted model and vs the restriction of the full open, on library-written (with and without leaf directories) and foreign archives, ranges with endpoints steered onto leaf first ids and run boundaries +-1, 0 and u64::MAX, all bound kinds.",
+   note="Trusted: Coq kernel (closed under the global context); model of read_directories.rs / pmtiles.rs (tied by the correspondence run); hypothesis tree_ok on the archive; extraction + driver + harness.",
+   technique="Coq proof (simulation of filtered vs unfiltered walk; induction over entries and depth fuel; N.iter lemma for run expansion) + correspondence run + restriction oracle",
+   design="7/C11")
 PENDING_REASON = "check not built yet in this revision of /verif (the design in DESIGN.md section 7 covers it); no claim is made until its theorems and correspondence run exist"
 props = [json.loads(l)["id"] for l in open(os.path.join(ROOT, "properties.jsonl"))]
 checks = []
